@@ -117,6 +117,9 @@ Definition spec_case (c : case) : bool :=
 
 (* the initial store satisfies the (decidable) invariant of the refinement theorems and holds no combined graph yet *)
 Definition refine_hyp (c : case) : bool :=
-  let '(st, cbm, _, _) := c in rgoodb cbm st && negb (gexists cbm st).
+  let '(st, cbm, gs, _) := c in
+  rgoodb cbm st && negb (gexists cbm st) &&
+  (* full refinement: every well-formed source is mergeable (well-formed abstraction, no self-loop) *)
+  forallb (fun g => match adm_of_view g (view_of g st) with Some _ => mergeableb g st | None => true end) gs.
 
 Definition check_case_both (c : case) : bool := check_case c && spec_case c && refine_hyp c.
